@@ -924,7 +924,8 @@ def tie_large(ctx):
 
     # --- encode_games on many games (a self-play step)
     t0 = time.time()
-    for ngames in ([rng_pick(ctx, 100, 140), rng_pick(ctx, 180, 240)] if ctx.thorough else [rng_pick(ctx, 100, 130)]):
+    # (more than 2^24 / 4572 = 3670 rows in one call: a flat row*width+id index passes 2^24)
+    for ngames in ([rng_pick(ctx, 200, 240), rng_pick(ctx, 320, 400)] if ctx.thorough else [rng_pick(ctx, 190, 220)]):
         logs = gen_many_games(ctx, ngames)
         text = "%d %s" % (len(logs), " ".join(transcript_str(t) for t in logs))
         io = run_encode_games(logs, ctx._c12_ledger, text)
@@ -937,7 +938,51 @@ def tie_large(ctx):
         if io != mo:
             divs.append(Divergence("corr.batches", {"kind": "encodegames", "games": text}, io, mo))
     ctx.note("many-game encode_games: %.1fs" % (time.time() - t0))
+
+    # --- a very large batch WITHOUT duplicates comes back unchanged (C12_dedup_id).  Hundreds of
+    #     thousands of distinct short rows: any key narrower than the tokens themselves (a 32-bit
+    #     fingerprint, say) merges two of them.  Tensor equality decides it; no model call needed.
+    import torch
+
+    t0 = time.time()
+    rng = ctx.rng
+    n = 400000 if ctx.thorough else 160000
+    width = 5
+    seen = set()
+    while len(seen) < n:
+        seen.add(tuple(rng.randrange(1, 250) for _ in range(width)))
+    rows = list(seen)
+    rng.shuffle(rows)
+    pos = torch.tensor(rows, dtype=torch.uint8)
+    batch = {"positions": pos, "mask": torch.ones((n, width), dtype=torch.bool), "values": torch.arange(n, dtype=torch.float32) % 1024}
+    want_pos, want_val = pos.clone(), batch["values"].clone()
+    try:
+        out = trainer_dedup(batch)
+        same = out["positions"].shape == want_pos.shape and bool((out["positions"] == want_pos).all()) and bool((out["values"] == want_val).all()) and bool(out["mask"].all())
+        got = "%d rows" % out["positions"].shape[0]
+    except Exception as e:
+        same, got = False, "crash " + type(e).__name__
+    ctx.evaluated()
+    ctx.count("dedup-identity:distinct-rows", n)
+    if not same:
+        # locate the first merged pair for the replay (rows are distinct by construction)
+        first = None
+        try:
+            k = int(out["positions"].shape[0])
+            neq = (out["positions"] != want_pos[:k]).any(dim=1).nonzero()
+            first = int(neq[0]) if len(neq) else k
+        except Exception:
+            pass
+        divs.append(Divergence("impl.identity", {"kind": "dedup-identity", "n": n, "width": width, "seed": ctx.seed, "first_differing_row": first},
+                               "dedup_batch of %d pairwise distinct rows returned %s" % (n, got), "the batch unchanged (%d rows)" % n))
+    ctx.note("identity on %d distinct rows: %.1fs" % (n, time.time() - t0))
     return divs
+
+
+def trainer_dedup(batch):
+    from tak.alphazero import trainer
+
+    return trainer.dedup_batch(batch)
 
 
 def rng_pick(ctx, lo, hi):
@@ -1170,11 +1215,15 @@ def shrink_games(text, key):
             return False, None
 
     import copy
+    import time as _time
 
+    t_end = _time.time() + 90.0  # shrinking is a convenience: bounded, whatever the size of the case
     changed = True
-    while changed:
+    while changed and _time.time() < t_end:
         changed = False
         for i in range(len(logs)):
+            if _time.time() > t_end:
+                break
             cand = logs[:i] + logs[i + 1 :]
             ok, _ = fails(cand)
             if ok:
@@ -1183,7 +1232,11 @@ def shrink_games(text, key):
         if changed:
             continue
         for gi, t in enumerate(logs):
+            if _time.time() > t_end:
+                break
             for pi in range(len(t.positions)):
+                if _time.time() > t_end:
+                    break
                 t2 = copy.copy(t)
                 t2.positions = t.positions[:pi] + t.positions[pi + 1 :]
                 t2.moves = t.moves[:pi] + t.moves[pi + 1 :]
@@ -1287,6 +1340,10 @@ def search(ctx, divergences, broken):
     vs, seen = [], set()
     for d in divergences:
         inp = d.input
+        if d.component == "impl.identity":
+            d.explained = True
+            vs.append(Violation("dedup-identity", "%s; C12: a batch without duplicates is returned unchanged (rows are drawn from ctx.rng with VERIF_SEED=%s: replay = this run)" % (d.impl, inp.get("seed")), dict(inp)))
+            continue
         if inp.get("kind") == "call-sequence":
             if MUTATED in seen:
                 d.explained = True
@@ -1377,6 +1434,13 @@ def search(ctx, divergences, broken):
 def replay(ctx, data):
     r = data.get("replay", data)
     vs = []
+    if r.get("kind") == "dedup-identity":
+        import random
+
+        ctx.seed = r.get("seed", ctx.seed)
+        ctx.rng = random.Random(ctx.seed * 1000003 + sum(map(ord, ctx.prop)))
+        ctx._c12_ledger = None
+        return search(ctx, [d for d in tie(ctx) if d.component == "impl.identity"], [])
     if r["kind"] == "call-sequence":
         for victim, name, now in run_sequence(r["calls"]):
             vs.append(Violation(MUTATED, "the batch returned by call %d (%s) is changed by later calls: tensor '%s' no longer equals its value at return time%s" % (
